@@ -15,7 +15,7 @@ FUNCTIONS = ["convert_to_dict", "_convert_to_dict_by_func", "_get_convert_func",
              "FlodymArray.to_df", "FlodymArray.from_df"]
 ASSUMPTIONS = ["MFADefinition.to_dfs has no numeric content: its harness is an exhaustive structural enumeration (32 subsets of empty kinds) with Python-level obligations, no solver query is involved there", "DataFrame.to_csv is replaced by a recorder (the CSV text itself is outside: compiled formatting concretises)", "cell values pairwise different for frames with more than 4 cells"]
 OUTSIDE = ["CSV text and pickle byte round trips", "systems beyond the bound"]
-VARIANTS = 'permuted process ids; names with a 90-character common prefix; pickle export through open / pickle recorders (two exports to one path); to_csv recorder requires default formatting'
+VARIANTS = 'permuted process ids; names with a 90-character common prefix; pickle export through open / pickle recorders (two exports to one path); to_csv recorder requires default formatting; a stock named like a flow'
 BOUNDS = {"quick": dict(processes="sysenv + 2", flows="1..3 flows of differing dimensionality (structured third of the multisets)", stocks="none / at p1 / without process / two", forms="numpy, pandas, csv flows, csv stocks with and without inflow/outflow"),
           "thorough": dict(processes="sysenv + 3", flows="1..4", stocks="as quick", forms="as quick")}
 for _t in BOUNDS.values():
